@@ -120,8 +120,11 @@ func c15Reduced(c *caseCtx) {
 // frequency batteries: a problem whose criteria have importances 1 : 2 : 4 : 8 under the method's measure
 
 func importanceProblem(method string) (*genReq, []string) {
+	return importanceProblemW(method, []float64{1, 2, 4, 8})
+}
+
+func importanceProblemW(method string, w []float64) (*genReq, []string) {
 	ids := []string{"c0", "c1", "c2", "c3"}
-	w := []float64{1, 2, 4, 8}
 	g := &genReq{method: method}
 	var crit []interface{}
 	for _, id := range ids {
@@ -183,6 +186,10 @@ func c15Frequency(c *caseCtx) {
 	method := freqMethods[(c.idx/2)%len(freqMethods)]
 	ordering := []string{"weakestByProbability", "strongestByProbability"}[c.idx%2]
 	g, ids := importanceProblem(method)
+	if (c.idx/(2*len(freqMethods)))%2 == 1 && method != "electreIII" {
+		// the least important criterion has importance exactly 0 (weight 0 / all values 0)
+		g, ids = importanceProblemW(method, []float64{0, 1, 2, 4})
+	}
 	const N = 4000
 	counts := map[string]int{}
 	base := c.rng.Intn(1 << 20)
